@@ -4,7 +4,7 @@ and compared with the R7RS (folds: minischeme) definition written out in Python 
 lists, nested lists, every index from 0 to one past the end; the claim is the table."""
 import itertools
 from scm import listeval as L
-from scm.listeval import Atom, Pair, NIL, mklist, show, OpaqueProc, SchemeError, Diverges
+from scm.listeval import Atom, Pair, NIL, mklist, show, OpaqueProc, SchemeError, Diverges, Unsupported
 
 
 class RefError(Exception):
@@ -258,7 +258,7 @@ def rule_list_library(ctx, rule, only=None):
             return r
         try:
             got = outcome(lambda: w.run(name, a_got, tr_got))
-        except Diverges as e:
+        except (Diverges, Unsupported) as e:
             st["undecided"] = st["undecided"] or "(%s %s): %s" % (name, " ".join(show(a) if a != "PROC" else "P" for a in args), e)
             continue
         want = outcome((lambda: ref(call_ref)) if uses_proc else ref)
